@@ -228,6 +228,26 @@ def run_seeds_for_property(pid: str, root: str) -> Dict[str, Any]:
     return out
 
 
+def run_kept_twins_for_property(pid: str, root: str) -> Dict[str, Any]:
+    """Every kept behaviour-preserving refactoring (/verif/twins/*) must leave `pid`'s check at exit 0."""
+    import glob
+
+    verif = os.path.dirname(os.path.dirname(os.path.dirname(os.path.abspath(__file__))))
+    work = [(os.path.basename(d), os.path.join(d, "patch.diff"), pid, root) for d in sorted(glob.glob(os.path.join(verif, "twins", "*"))) if os.path.exists(os.path.join(d, "patch.diff"))]
+    out = {"twins": len(work), "silent": 0, "noisy": [], "not_applicable": []}
+    if not work:
+        return out
+    with ProcessPoolExecutor(max_workers=min(12, len(work))) as ex:
+        for r in ex.map(_run_seed, work):
+            if r["status"] == "n/a":
+                out["not_applicable"].append(r["seed"])
+            elif r["exit"] == 0:
+                out["silent"] += 1
+            else:
+                out["noisy"].append(f"{r['seed']} exit={r['exit']} {r['first']}")
+    return out
+
+
 def run_for_property(pid: str, root: str) -> Dict[str, Any]:
     from .mutants import MUTANTS, TWINS
 
@@ -236,6 +256,7 @@ def run_for_property(pid: str, root: str) -> Dict[str, Any]:
     res = run_cases(cases, root)
     out = evaluate(cases, res)
     out["independent_seeds"] = run_seeds_for_property(pid, root)
+    out["independent_twins"] = run_kept_twins_for_property(pid, root)
     return out
 
 
